@@ -291,14 +291,19 @@ func (sp *scorePair[T]) taperedScore(b *board.Board) T {
 		v := int(mgScore)*mgPhase + int(egScore)*egPhase
 		v *= int(100 - fifty)
 
-		return T(v / MaxPhase / 100)
+		return T(Clamp(v/MaxPhase/100, -maxEval, maxEval))
 	}
 
 	v := mgScore*T(mgPhase) + egScore*T(egPhase)
 	v *= 100 - T(fifty)
 
-	return v / MaxPhase / 100
+	return min(max(v/MaxPhase/100, -T(maxEval)), T(maxEval))
 }
+
+// maxEval is the largest magnitude a static evaluation can have. With enough
+// promoted material the raw value would reach the mate score range, and search
+// would mistake it for a mate score.
+const maxEval = int(Inf) - MaxPlies - 1
 
 func (sp *scorePair[T]) endgameScore(b *board.Board) T {
 	return sp.eg[b.STM] - sp.eg[b.STM.Flip()]
